@@ -337,7 +337,23 @@ const STRING_ATOMS: [&str; 40] = [
   "\u{a0}", "é", "ł", "ß", "Ω", "ж", "中", "\u{2028}", "\u{2029}", "\u{feff}", "\u{fffd}", "😀", "𝄞", "\\u0041",
 ];
 
+/// A text of several KiB of multi-byte characters behind 0..3 ASCII bytes (so that any byte offset a
+/// size cap might cut at falls inside a character for some of them).
+pub fn long_text(rng: &mut Rng) -> String {
+  let pad = rng.index(4);
+  let unit = *rng.pick(&["\u{17c}", "\u{4e2d}", "\u{1F600}", "\u{e9}\u{4e2d}\u{1F600}"]);
+  let target = [100usize, 300, 1_500, 5_000, 9_000][rng.index(5)];
+  let mut s = "a".repeat(pad);
+  while s.len() < target {
+    s.push_str(unit);
+  }
+  s
+}
+
 pub fn gen_string(rng: &mut Rng) -> String {
+  if rng.chance(1, 25) {
+    return long_text(rng);
+  }
   let n = match rng.index(10) {
     0 => 0,
     1..=5 => 1 + rng.index(3),
